@@ -115,8 +115,14 @@ register(Contract(
         CKEEP,
     ],
     raises=[Raises("BadPluginError")],
-    modifies=["*"],
+    modifies=["$rule_state", f"{REPORTED}.$list", "context.line_number", "source_provider._FileSourceProvider__read_index",
+              "self.__plugins._PluginManager__document_pragmas.$dict", "self.__plugins._PluginManager__document_pragma_ranges.$list",
+              "number_of_pragma_failures", "$presentation_state", "calls.$list"],
     loops={0: Loop(index="idx", invariant=[
+        f"same_except('$list', {REPORTED}, old(self.__plugins._PluginManager__document_pragma_ranges)) and "
+        f"same_except('$dict', old(self.__plugins._PluginManager__document_pragmas)) and same_except('_PluginScanContext__current_fix_line') "
+        f"and same_except('_PluginScanContext__last_line_fixed') and same_except('line_number', context) "
+        f"and same_except('_FileSourceProvider__read_index')",
         f"len(actual_tokens) == old({NT})", f"forall(lambda k: actual_tokens[k] is old({TOKS}[k]), 0, len(actual_tokens))",
         f"len(calls) == {BASE} + old({NP}) + idx",
         f"implies(old({HAS_PRAGMA}), calls[{BASE}] == ('pragmas', next_file_name, old({TOKS}[len({TOKS}) - 1].pragma_lines)))",
@@ -163,7 +169,7 @@ register(Contract(
         "implies(use_standard_in, result[1] == (not g_stdin_ok))",
         # did_fix_any_file  <=>  some file was fixed
         "implies(not use_standard_in, result[0] == (g_nfix > 0))",
-        "implies(use_standard_in, result[0] == False)",
+        "implies(use_standard_in, result[0] == False and g_nfix == 0 and g_nfail == 0)",
         # "Fixed: f" is printed  <=>  the fixer reported f as fixed
         f"forall(lambda j: implies(g_fix[j], old({FILES}[j]) in g_announced), 0, len(g_fix))",
         "forall_val(lambda x: implies(x in g_announced, x in g_fixflag and g_fixflag[x]))",
